@@ -247,26 +247,42 @@ instance (s : St) : Decidable (Quiescent s) := by unfold Quiescent; infer_instan
 instance (s : St) : Decidable (QuiescentFull s) := by unfold QuiescentFull; infer_instance
 instance (s : St) (p : ObjId) : Decidable (registered s p) := by unfold registered; infer_instance
 
+/-- the code without design/fixes/C12-stale-handoff.patch -/
+def legacyHandCfg : Cfg := { exCfg12 with fixHand := false }
+
 /-- the witness: everything has stopped, A has been subscribed all along, its only EVENT carried 10,
-    the value is 20 (fully repaired model otherwise: `fix12`, `fix13`, `fixResub` all on) -/
+    the value is 20 (all other repairs on) -/
 theorem C12_worker_handoff_counterexample :
-    let r := run exCfg12 (init exCfg12) workerTrace
-    ReuseOK exCfg12 (init exCfg12) workerTrace ∧ QuiescentFull r.1 ∧
+    let r := run legacyHandCfg (init legacyHandCfg) workerTrace
+    ReuseOK legacyHandCfg (init legacyHandCfg) workerTrace ∧ QuiescentFull r.1 ∧
     r.2 = [Out.resp 0 0 204 Body.none, Out.resp 1 0 204 Body.none, Out.event 0 0 [(0, 10)]] ∧
     (r.1.obj 0).since 0 = true ∧ (r.1.obj 0).learned 0 = some 10 ∧ r.1.value 0 = some 20 := by
   decide
 
-/-- **C12_quiescent_fails.** The full statement is false for the code as it is: a change handed
-    over from a worker thread can be overtaken by a controller write and is then delivered last.
-    Replayed on the real code (real thread, `call_soon_threadsafe`) by the harness; signature
-    `C12:worker-change-overtaken-by-newer-change`. -/
-theorem C12_quiescent_fails : ¬ C12_quiescent_statement exCfg12 := by
+/-- **C12_quiescent_fails.** The full statement is false for the code without the stale-hand-off
+    repair: a change handed over from a worker thread can be overtaken by a controller write and is
+    then delivered last. Replayed on the real code (real thread, `call_soon_threadsafe`) by the
+    harness; signature `C12:worker-change-overtaken-by-newer-change`. -/
+theorem C12_quiescent_fails : ¬ C12_quiescent_statement legacyHandCfg := by
   intro h
   have w := C12_worker_handoff_counterexample
   have := h workerTrace w.1 w.2.1 0 0 w.2.2.2.1 (by decide)
   have e1 := this.2.2
   rw [w.2.2.2.2.1, w.2.2.2.2.2] at e1
   cases e1
+
+/-- With the repair (`fixHand`: the loop drops a hand-off whose captured value is no longer the value
+    of the characteristic) the same history ends with A having learned 20, the current value: the
+    overtaken 10 is never sent. (The full statement `C12_quiescent_statement` for the repaired
+    configuration — every history WITH worker-thread changes — is not proved: the invariant `InvL`
+    would have to be weakened by "or a hand-off carrying the current value is pending" and carried
+    through every event again. It is checked by the differential run and the oracle only.) -/
+theorem C12_worker_handoff_repaired :
+    let r := run exCfg12 (init exCfg12) workerTrace
+    ReuseOK exCfg12 (init exCfg12) workerTrace ∧ QuiescentFull r.1 ∧
+    r.2 = [Out.resp 0 0 204 Body.none, Out.resp 1 0 204 Body.none, Out.event 0 0 [(0, 20)]] ∧
+    (r.1.obj 0).since 0 = true ∧ (r.1.obj 0).learned 0 = some 20 ∧ r.1.value 0 = some 20 := by
+  decide
 
 /-! ### setter callbacks inside `client_update_value` -/
 
